@@ -299,8 +299,17 @@ def load_config(config_dir, settings_file='settings.yaml'):
             config['_merchants_file'] = csv_file
             config['_merchants_format'] = 'csv'  # Legacy format
         else:
-            config['_merchants_file'] = None
-            config['_merchants_format'] = None
+            # Neither configured nor a legacy CSV: use config/merchants.rules when it exists.
+            # After a CSV migration only the settings file in use gains a merchants_file
+            # line; a budget run with another settings file (settings-2024.yaml) would
+            # otherwise be left without rules although the migrated file is right there.
+            rules_file = os.path.join(config_dir, 'merchants.rules')
+            if os.path.exists(rules_file):
+                config['_merchants_file'] = rules_file
+                config['_merchants_format'] = 'new'
+            else:
+                config['_merchants_file'] = None
+                config['_merchants_format'] = None
 
     # Load view definitions (optional - views_file in settings.yaml)
     views_file = config.get('views_file')
